@@ -473,8 +473,8 @@ const char *const kMemberNames[11] = {"to_short", "to_int", "to_long", "to_long_
 uint64_t call_member(int k, const ST::string &s, ST::conversion_result &cr, int base) {
     switch (k) {
     case 0: return (uint64_t)(int64_t)s.to_short(cr, base);
-    case 1: return (uint64_t)(int64_t)s.to_int(cr, base);
-    case 2: return (uint64_t)(int64_t)s.to_long(cr, base);
+    case 1: verif::pre_errno(); return (uint64_t)(int64_t)s.to_int(cr, base);
+    case 2: verif::pre_errno(); return (uint64_t)(int64_t)s.to_long(cr, base);
     case 3: return (uint64_t)(int64_t)s.to_long_long(cr, base);
     case 4: return (uint64_t)s.to_ushort(cr, base);
     case 5: return (uint64_t)s.to_uint(cr, base);
@@ -594,6 +594,7 @@ std::string check_parse(const uint8_t *bytes, size_t n, int base, ParseFacts *fa
         // ---- default base argument (= 0) of every overload
         if (base == 0) {
             ST::conversion_result c0, c1, c2, c3, c4, c5, c6, c7, c8, c9;
+            verif::pre_errno();
             const uint64_t with_cr[10] = {(uint64_t)(int64_t)s.to_short(c0), (uint64_t)(int64_t)s.to_int(c1), (uint64_t)(int64_t)s.to_long(c2), (uint64_t)(int64_t)s.to_long_long(c3), (uint64_t)s.to_ushort(c4),
                                           (uint64_t)s.to_uint(c5), (uint64_t)s.to_ulong(c6), (uint64_t)s.to_ulong_long(c7), (uint64_t)s.to_int64(c8), (uint64_t)s.to_uint64(c9)};
             const uint64_t without[10] = {(uint64_t)(int64_t)s.to_short(), (uint64_t)(int64_t)s.to_int(), (uint64_t)(int64_t)s.to_long(), (uint64_t)(int64_t)s.to_long_long(), (uint64_t)s.to_ushort(),
